@@ -132,6 +132,8 @@ func init() {
 		}
 		return iface{}
 	})
+	reg("net/http.HandleFunc", noop)
+	reg("net/http.Handle", noop)
 	reg(RepoModule+"/utils.GetStack", func(fr *frame, args []value) value { return "<stack>" })
 	reg(RepoModule+"/utils.DiskUsage", func(fr *frame, args []value) value {
 		panic(engineAbort{psInconclusive, "utils.DiskUsage not modelled"})
